@@ -19,7 +19,7 @@ from eliot._output import Destinations, Logger
 from eliot.parse import Parser
 
 RESERVED = {"task_uuid", "task_level", "timestamp", "action_type", "action_status", "message_type"}
-GLOBALS = {"g1": {"gv": [1, "one"]}, "g2": 2.5}
+GLOBALS = {"g1": [{"gv": [1, "one"]}, "g1 second value"], "g2": [2.5, [2, 5]]}        # name -> values of version 1, 2
 VAL = {
     "sa": {"k": [1, 2.5, "ü\U0001f600", None, True], "n": -0.0},
     "mf": ["multi\nline", {"a": {"b": []}}, 2 ** 53 + 1],
@@ -203,7 +203,10 @@ class Env:
         if not all(isinstance(n, str) for n in names):
             why = why or "field_names"
             names = [str(n) for n in names]
-        g = sorted(n for n in names if n in GLOBALS)
+        g = []
+        for n in sorted(n for n in names if n in GLOBALS):
+            ver = [i + 1 for i, val in enumerate(GLOBALS[n]) if _same(msg[n], val)]
+            g.append([n, ver[0] if ver else 0])
         f = sorted(n for n in names if n not in GLOBALS)
         # values
         if not why:
@@ -211,8 +214,7 @@ class Env:
             for n in names:
                 v = msg[n]
                 if n in GLOBALS:
-                    ok = _same(v, GLOBALS[n])
-                    if not ok:
+                    if not any(_same(v, val) for val in GLOBALS[n]):
                         why = "global_field_value"
                 elif n in ("x", "y") and typed:
                     if _same(v, {"ser": {"ser": VAL[n]}}):
@@ -541,7 +543,7 @@ class Runner:
                 # extractors may well return names Eliot itself uses; the framework's own values win
                 register_exception_extractor(cls, lambda e, fld=fld: {fld: VAL[fld], "reason": "from the extractor"})
             elif name == "AddGlobal":
-                env.D.addGlobalFields(**{op["f"]: GLOBALS[op["f"]]})
+                env.D.addGlobalFields(**{op["f"]: GLOBALS[op["f"]][op.get("v", 1) - 1]})
             else:
                 raise HarnessError("unknown op %r" % (name,))
         except (_Abort, HarnessError):
